@@ -17,6 +17,7 @@ mod scen_c07;
 mod scen_c09;
 mod scen_c10;
 mod scen_c15;
+mod scen_c17;
 mod scen_c18;
 mod scen_r1cs;
 mod shapes;
@@ -116,6 +117,24 @@ fn tasks_for(prop: &str, tier: &str, seed: u64) -> Vec<Task> {
                         replay: serde_json::json!({"kind": "c03", "shape": scen_r1cs::shape_json(&shape), "seed": seed}),
                         run: Box::new(move || {
                             use scen_c03::job_c03 as f;
+                            on_curve!(c.as_str(), f, &shape, seed, &c)
+                        }),
+                    });
+                }
+            }
+            out
+        }
+        "C17" => {
+            let mut out = vec![];
+            for (k, shape) in scen_c17::c17_shapes(thorough).into_iter().enumerate() {
+                let cs: Vec<&str> = if thorough { curves.clone() } else { vec![["secq256k1", "zorro", "curve25519"][k % 3]] };
+                for c in cs {
+                    let (shape, c) = (shape.clone(), c.to_string());
+                    out.push(Task {
+                        name: format!("C17:{}:{}", shape.name, c),
+                        replay: serde_json::json!({"kind": "c17", "shape": scen_r1cs::shape_json(&shape), "seed": seed}),
+                        run: Box::new(move || {
+                            use scen_c17::job_c17 as f;
                             on_curve!(c.as_str(), f, &shape, seed, &c)
                         }),
                     });
@@ -423,7 +442,7 @@ fn main() {
                     println!("REPLAY {}", if any_wrong { "REPRODUCED" } else { "NOT-REPRODUCED" });
                     std::process::exit(if any_wrong { 1 } else { 0 });
                 }
-                Some(kind @ ("c10" | "c13" | "c15" | "c07" | "c06" | "c09" | "c05" | "c04" | "c03" | "c18")) => {
+                Some(kind @ ("c10" | "c13" | "c15" | "c07" | "c06" | "c09" | "c05" | "c04" | "c03" | "c18" | "c17")) => {
                     let seed = rp["seed"].as_u64().unwrap_or(0);
                     let mut any_wrong = false;
                     for (k, m) in [(0u64, model.clone()), (1, HashMap::new()), (2, HashMap::new())] {
@@ -436,6 +455,10 @@ fn main() {
                             "c03" | "c18" => {
                                 let shape: r1cs::Shape = serde_json::from_value(rp["shape"].clone()).unwrap();
                                 replay::diff_native::<Secq>(&shape, seed + k)
+                            }
+                            "c17" => {
+                                let shape: r1cs::Shape = serde_json::from_value(rp["shape"].clone()).unwrap();
+                                scen_c17::capacity_grid::<Secq>(&shape, seed + k, || Box::new(job::PlainVals::<ark_secq256k1::Fr>::new(HashMap::new(), seed + k)))
                             }
                             "c04" => {
                                 let case: scen_c04::C04Case = serde_json::from_value(rp["case"].clone()).unwrap();
